@@ -578,7 +578,9 @@ Qed.
 
 Lemma after_failed_good b x beh x' e : wf x -> after_failed_connect b x beh = (x', e) -> Good x e x'.
 Proof.
-  intros W H. unfold after_failed_connect in H. destruct (b && c_fd (cs x)); [|inversion H; subst; apply Good_refl, W].
+  intros W H. unfold after_failed_connect in H. destruct (b && c_fd (cs x)).
+  2: { destruct (negb b && c_fd (cs x) && negb (Nat.eqb (a_wc (cax x)) 0)); inversion H; subst;
+       [apply Good_same; cbn; auto|apply Good_refl, W]. }
   destruct (flush_cbs x beh) as [x1 e1] eqn:E1. pose proof (flush_cbs_good _ _ _ _ W E1) as G1.
   destruct (a_sh (cax x1) && c_fd (cs x1)); [|inversion H; subst; exact G1].
   destruct (drain_if_idle x1) as [x2 e2] eqn:E2. inversion H; subst.
@@ -917,9 +919,10 @@ Lemma established_status_zero x beh r rest :
   c_req (cs x) = Some r -> c_delayed (cs x) = 0 -> o_so (co x) = 0 :: rest ->
   exists e, snd (stream_connect x beh) = CCb r 0 SrcSo :: e.
 Proof.
-  intros R D O. unfold stream_connect. rewrite R, D, O. cbn.
+  intros R D O. unfold stream_connect. rewrite R, D, O. cbn -[after_failed_connect].
   match goal with |- context [run_cb ?y beh] => destruct (run_cb y beh) as [x1 e1] end.
   match goal with |- context [reject ?c ?s ?k ?y beh] => destruct (reject c s k y beh) as [x2 e2] end.
+  match goal with |- context [after_failed_connect ?b ?y beh] => destruct (after_failed_connect b y beh) as [x3 e3] end.
   cbn. eexists; reflexivity.
 Qed.
 
@@ -1239,7 +1242,9 @@ Qed.
 
 Lemma after_failed_I5 b x beh x' e : I5 x -> after_failed_connect b x beh = (x', e) -> P5 x' e.
 Proof.
-  intros I H. unfold after_failed_connect in H. destruct (b && c_fd (cs x)); [|inversion H; subst; apply P5_same, I].
+  intros I H. unfold after_failed_connect in H. destruct (b && c_fd (cs x)).
+  2: { destruct (negb b && c_fd (cs x) && negb (Nat.eqb (a_wc (cax x)) 0)); inversion H; subst;
+       [split; [eapply I5_same; [exact I| | | |]; reflexivity|constructor]|apply P5_same, I]. }
   destruct (flush_cbs x beh) as [x1 e1] eqn:E1. pose proof (flush_cbs_I5 _ _ _ _ I E1) as P1.
   destruct (a_sh (cax x1) && c_fd (cs x1)); [|inversion H; subst; exact P1].
   destruct (drain_if_idle x1) as [x2 e2] eqn:E2. inversion H; subst.
